@@ -22,3 +22,4 @@ mod esc_native;
 mod purity;
 mod oracle_native;
 mod memget;
+mod mutf;
